@@ -81,15 +81,16 @@ def build(desc, root):
         new = _doc(desc["new"], 1)
         how = desc.get("how", "reset")
 
-        def act():
+        def act(tracing):
             p2 = signac.get_project(root)
             d = p2.open_job(id=job.id).document if kind == "jobdoc" else p2.document
-            if how == "reset":
-                d.reset(new)
-            elif how == "update":
-                d.update(new)
-            else:
-                d["extra_key"] = new
+            with tracing():
+                if how == "reset":
+                    d.reset(new)
+                elif how == "update":
+                    d.update(new)
+                else:
+                    d["extra_key"] = new
         return ("SJobDoc" if kind == "jobdoc" else "SProjectDoc"), act
     if kind == "flush":
         project = signac.init_project(path=root)
@@ -98,10 +99,10 @@ def build(desc, root):
             if i % 2 == 0:
                 _write_plain(os.path.join(j.path, "signac_job_document.json"), _doc("small", i))
 
-        def act():
+        def act(tracing):
             p2 = signac.get_project(root)
             js = [p2.open_job(id=j.id) for j in jobs]
-            with signac.buffered(desc.get("cap")):
+            with tracing(), signac.buffered(desc.get("cap")):
                 for r in range(desc["rounds"]):
                     for i, j in enumerate(js):
                         j.doc["r%d" % r] = {"i": i, "pad": "x" * desc.get("pad", 5)}
@@ -115,9 +116,10 @@ def build(desc, root):
         if desc.get("olddoc"):
             _write_plain(os.path.join(root, "signac_project_document.json"), {"existing": 1})
 
-        def act():
+        def act(tracing):
             from signac.migration import apply_migrations
-            apply_migrations(root)
+            with tracing():
+                apply_migrations(root)
         return "SMigration", act
     if kind == "cache":
         project = signac.init_project(path=root)
@@ -130,13 +132,14 @@ def build(desc, root):
             with open(os.path.join(root, ".signac", "statepoint_cache.json.gz~"), "wb") as fh:
                 fh.write(b"stale")
 
-        def act():
+        def act(tracing):
             p2 = signac.get_project(root)
             for i in range(desc["n0"], desc["n1"]):
                 p2.open_job(mk(i)).init()
             for i in range(desc.get("remove", 0)):
                 p2.open_job(mk(i)).remove()
-            p2.update_cache()
+            with tracing():
+                p2.update_cache()
         return "SCache", act
     if kind == "raw":
         from synced_collections.backends.collection_json import BufferedJSONAttrDict
@@ -147,8 +150,9 @@ def build(desc, root):
             _write_plain(target, old)
         new = _doc(desc["new"], 1)
 
-        def act():
-            BufferedJSONAttrDict(filename=target, write_concern=desc["write_concern"]).reset(new)
+        def act(tracing):
+            with tracing():
+                BufferedJSONAttrDict(filename=target, write_concern=desc["write_concern"]).reset(new)
         return ("SRawAtomic" if desc["write_concern"] else "SRawDirect"), act
     raise AssertionError(kind)
 
@@ -318,9 +322,12 @@ def run_scenario(desc, work):
         os.makedirs(root)
         site, act = build(desc, root)
         pre = os.path.join(work, "pre")
-        shutil.copytree(root, pre, symlinks=True)
-        with Interposer(root, pre_dir=pre) as ip:
-            act()
+        ip = Interposer(root, pre_dir=pre)
+
+        def tracing():
+            shutil.copytree(root, pre, symlinks=True)     # the pre-state is the state when tracing starts
+            return ip
+        act(tracing)
         broken = ip.check_complete(work)
         muts = ip.mutations()
         eps = [(a, b, t) for a, b, t in episodes(muts) if os.path.basename(t) in DOC_NAMES]
@@ -351,8 +358,7 @@ def run_scenario(desc, work):
                     forked.append((k, fork_read(desc, root2, ip2)))
 
             ip2 = Interposer(root2, before=before, keep_pre=False)
-            with ip2:
-                act2()
+            act2(lambda: ip2)
             before(1 << 60, "end", None, None)
             for _, fds in held:
                 for f in fds.values():
@@ -372,6 +378,9 @@ def run_scenario(desc, work):
         targets = sorted({t for _, _, t in eps})
         dirs = sorted({os.path.dirname(t) for t in targets})
         for n, cp in enumerate(cps):
+            if not any(a <= cp.nops <= b + 1 for a, b, _ in eps):
+                crash_reads.append(None)
+                continue
             dest = os.path.join(work, "cs")
             ip.materialise(cp, dest)
             crash_reads.append(({t: read_file(os.path.join(dest, t)) for t in targets},
@@ -427,14 +436,19 @@ def run_scenario(desc, work):
                     _, actf = build(desc, rootf)
                     tf = os.path.join(rootf, t)
                     d, base = os.path.split(t)
-                    old_b = read_file(tf)
-                    before_entries = dir_entries(rootf, d)
                     exc = None
-                    with Interposer(rootf, faults={muts[k].index: errno.ENOSPC}, keep_pre=False) as ipf:
-                        try:
-                            actf()
-                        except OSError as e:
-                            exc = e
+                    ipf = Interposer(rootf, faults={muts[k].index: errno.ENOSPC}, keep_pre=False)
+                    pre_f = {}
+
+                    def tracing_f():
+                        pre_f["old"] = read_file(tf)
+                        pre_f["entries"] = dir_entries(rootf, d)
+                        return ipf
+                    try:
+                        actf(tracing_f)
+                    except OSError as e:
+                        exc = e
+                    old_b, before_entries = pre_f.get("old"), pre_f.get("entries", set())
                     mf = ipf.mutations()
                     opsf = [o for o in mf if o.index >= muts[a].index]
                     m = name_map(t, [o.path for o in opsf] + [o.path2 for o in opsf])
@@ -509,9 +523,9 @@ def gen_inputs(tier, rng):
                           "pad": rng.choice([5, 50, 9000])})
         descs.append({"kind": "migration", "threads": thr, "olddoc": False})
         descs.append({"kind": "migration", "threads": thr, "olddoc": True})
-        caches = [(0, 3, 0, False), (3, 5, 0, False), (5, 5, 2, False), (40, 120, 0, True)]
+        caches = [(0, 3, 0, False), (3, 5, 0, False), (5, 6, 3, False), (40, 120, 0, True)]
         if not quick:
-            caches += [(0, 400, 0, False), (400, 400, 150, False), (120, 300, 20, True), (1, 2, 0, True)]
+            caches += [(0, 400, 0, False), (400, 401, 150, False), (120, 300, 20, True), (1, 2, 0, True)]
         for n0, n1, rem, stale in caches:
             descs.append({"kind": "cache", "threads": thr, "n0": n0, "n1": n1, "remove": rem, "stale_tmp": stale,
                           "salt": "%06d" % rng.randint(0, 999999), "faults": True})
